@@ -88,6 +88,14 @@ def run_check(prop: str, tier: str, repo: str = REPO, quiet: bool = False, write
                     inst.detail = f"[unrecognised shape: {'; '.join(res[:3])}] " + inst.detail
                     errors.append(f"{inst.clause}: {inst.module}:{inst.func} [{inst.construct[:80]}] does not match, but the function still holds "
                                   f"constructs the rules cannot see through ({'; '.join(res[:3])})")
+        if any("(anchor vanished)" in e for e in errors):
+            # a definition the rules are anchored on is gone: the code was restructured around it, and a mismatch found in what is left cannot
+            # be told apart from the new division of labour - no verdict
+            # (findings about shared mutable state do not depend on how the code is cut up: they stand)
+            for i in ctx.instances:
+                if i.verdict == _V and _km(i, prop, _known) is None and i.rule != "R-STATE":
+                    i.verdict = OBSERVATION
+                    i.detail = "[not judged: an anchored definition is gone] " + i.detail
         if errors and not any(i.verdict == _V and _km(i, prop, _known) is None for i in ctx.instances):
             raise AnalysisError("; ".join(errors))
         for e in errors:
